@@ -876,7 +876,7 @@ func genAction(g *RNG, def *probeDef, prop string) Action {
 		a.Echo = true
 	}
 	if (def.Kind == KCert && g.Chance(0.15)) || (def.Kind != KCert && g.Chance(0.03)) {
-		a.Panic = pick(g, []string{"string", "error", "runtime", "custom"})
+		a.Panic = pick(g, []string{"string", "error", "runtime", "custom", "string", "error", "runtime", "custom", "nilerr", "evilstringer"})
 		ats := []string{"execute", "execute", "applies"}
 		if def.Configurable {
 			ats = append(ats, "configure")
